@@ -210,7 +210,7 @@ fn field(ty: BoxedStrategy<TE>, o: &DefOpts) -> BoxedStrategy<FieldD> {
             if rich && k % 7 == 0 {
                 attr.rename = Some(rn.trim_start_matches("r#").to_string());
             }
-            FieldD { name: None, ty, attr, docs, spaced: rich && spaced }
+            FieldD { name: None, ty, attr, docs, spaced: rich && spaced, qualified: rich && k % 5 == 1 }
         })
         .boxed()
 }
@@ -325,7 +325,7 @@ pub fn def(idx: usize, prev: Vec<Def>, o: DefOpts) -> BoxedStrategy<Def> {
             let fields = |allow_self: bool| vec(field(mt(allow_self), &o), 0..5);
             let body: BoxedStrategy<Body> = if is_enum {
                 let variant = (shape(), fields(true), prop::option::weighted(0.25, any::<u8>()), prop::bool::weighted(0.12), if o.rich_attrs { docs().boxed() } else { Just(vec![]).boxed() }, any::<u16>())
-                    .prop_map(|(shape, fs, index, skip, docs, vsalt)| VariantD { name: String::new(), shape, fields: name_fields(shape, fs, vsalt), index, skip, discriminant: None, docs });
+                    .prop_map(|(shape, fs, index, skip, docs, vsalt)| VariantD { name: String::new(), shape, fields: name_fields(shape, fs, vsalt), index, skip, discriminant: None, docs, index_style: (vsalt >> 8) as u8 });
                 (vec(variant, 1..6), any::<u16>(), prop::bool::weighted(0.25), vec(prop::sample::select(DISCRIMINANTS.to_vec()), 6), prop::bool::weighted(0.3))
                     .prop_map(move |(mut vs, vsalt, fieldless, discs, with_repr)| {
                         for (k, v) in vs.iter_mut().enumerate() {
@@ -358,7 +358,7 @@ pub fn def(idx: usize, prev: Vec<Def>, o: DefOpts) -> BoxedStrategy<Def> {
                                     v.discriminant = Some((s.to_string(), n));
                                 }
                             }
-                            vs.push(VariantD { name: "__repr_marker".into(), shape: Shape::Unit, fields: vec![], index: None, skip: true, discriminant: None, docs: vec![] });
+                            vs.push(VariantD { name: "__repr_marker".into(), shape: Shape::Unit, fields: vec![], index: None, skip: true, discriminant: None, docs: vec![], index_style: 0 });
                         }
                         // at least one variant must be constructible
                         if vs.iter().all(|v| v.skip) {
